@@ -84,12 +84,14 @@ Fixpoint list_eqb {A} (f : A -> A -> bool) (a b : list A) : bool :=
   | _, _ => false
   end.
 
-Definition obs_eqb (a b : obs) : bool :=
+Definition obs_eqb (c : ctr) (a b : obs) : bool :=
   list_eqb (fun x y => let '(n, i, c1, p, m) := x in let '(n', i', c2, p', m') := y in
                        String.eqb n n' && (i =? i') && (c1 =? c2) && Bool.eqb p p' && Bool.eqb m m') (o_ns a) (o_ns b)
   && list_eqb (list_eqb pair_eqb) (o_views a) (o_views b)
   && list_eqb (fun x y => let '(n, g, ga) := x in let '(n', g', ga') := y in
-                          String.eqb n n' && (g =? g') && (is_private n || (ga =? ga'))) (o_gets a) (o_gets b).
+                          String.eqb n n' && (g =? g') &&
+                          (* attribute access to Python-level attributes (e.g. `name`, which stays assignable) is not the namespace's business *)
+                          (is_private n || mem n (public_attrs c) || (ga =? ga'))) (o_gets a) (o_gets b).
 
 Definition is_elab (o : op) : bool := match o with Elaborate => true | _ => false end.
 
@@ -105,7 +107,7 @@ Fixpoint walk_spec (c : ctr) (a : astate) (prev : option obs) (steps : list iste
         Bool.eqb acc (accepted r) &&
         (if is_elab o then true                       (* elaboration rewrites the module: not C18's business *)
          else if a_elab a
-         then match prev with Some p => obs_eqb p ob | None => false end    (* frozen after elaboration *)
+         then match prev with Some p => obs_eqb c p ob | None => false end    (* frozen after elaboration *)
          else obs_ok c a' ob) in
       if ok then walk_spec c a' (Some ob) t (idx + 1) else (1 + 10 * (idx + 1), a)
   end.
